@@ -86,10 +86,22 @@ Definition validate_cp (w : option (tensor F)) (fs : list (tensor F)) : res (lis
                  if weights_ok w rank then Ok (shp, rank) else Err))
   end.
 
+(* The reconstruction functions take the (shape, rank) pair returned by _validate_cp_tensor as a parameter `v`: for a
+   (weights, factors) tuple it is recomputed from the factors, for a CPTensor object it is the pair cached at construction
+   (see the object model at the end of this file).
+   1-D factors (accepted by the validator for rank 1) are viewed as single columns right after validation
+   (_as_matrices: T.reshape(f, (-1, 1)) if T.ndim(f) == 1 -- repaired in /repo by 148e558). *)
+Definition all_2d (fs : list (tensor F)) : bool := forallb (fun f => ndim f =? 2) fs.
+Definition as_col (f : tensor F) : tensor F := if ndim f =? 1 then reshape [nrows f; 1] f else f.
+Definition as_matrices (fs : list (tensor F)) : list (tensor F) := map as_col fs.
+
 (* cp_to_tensor(cp_tensor, mask) *)
-Definition cp_to_tensor (w : option (tensor F)) (fs : list (tensor F)) (mask : option (tensor F)) : res (tensor F) :=
-  rbind (validate_cp w fs) (fun sr =>
+Definition cp_to_tensor_from (v : res (list nat * nat)) (w : option (tensor F)) (fs : list (tensor F)) (mask : option (tensor F))
+  : res (tensor F) :=
+  rbind v (fun sr =>
     let shp := fst sr in
+    let fs := as_matrices fs in
+    if negb (all_2d fs) then Err else
     match fs with
     | [] => Err
     | fa :: rest =>
@@ -103,28 +115,38 @@ Definition cp_to_tensor (w : option (tensor F)) (fs : list (tensor F)) (mask : o
                        rbind (apply_mask K m) (fun KM => fold zero (sum_axis1 KM) 0 shp))
            end
     end).
+Definition cp_to_tensor (w : option (tensor F)) (fs : list (tensor F)) (mask : option (tensor F)) : res (tensor F) :=
+  cp_to_tensor_from (validate_cp w fs) w fs mask.
 
 (* cp_to_unfolded(cp_tensor, mode): an order-1 CP tensor is returned as a single column (mode 0 only) *)
-Definition cp_to_unfolded (w : option (tensor F)) (fs : list (tensor F)) (mode : nat) : res (tensor F) :=
-  rbind (validate_cp w fs) (fun sr =>
+Definition cp_to_unfolded_from (v : res (list nat * nat)) (w : option (tensor F)) (fs : list (tensor F)) (mode : nat) : res (tensor F) :=
+  rbind v (fun sr =>
     if length (fst sr) =? 1 then
-      (if mode =? 0 then rbind (cp_to_tensor w fs None) (fun v => reshape_spec [None; Some 1] v) else Err)
+      (if mode =? 0 then rbind (cp_to_tensor_from v w fs None) (fun t => reshape_spec [None; Some 1] t) else Err)
+    else let fs := as_matrices fs in
+    if negb (all_2d fs) then Err
     else if mode <? length fs then
       rbind (khatri_rao (remove_nth mode fs)) (fun K =>
         mdot (opt_scale w (nth mode fs (mk [] []))) (mT K))
     else Err).
+Definition cp_to_unfolded (w : option (tensor F)) (fs : list (tensor F)) (mode : nat) : res (tensor F) :=
+  cp_to_unfolded_from (validate_cp w fs) w fs mode.
 
-Definition cp_to_vec (w : option (tensor F)) (fs : list (tensor F)) : res (tensor F) :=
-  rbind (cp_to_tensor w fs None) tensor_to_vec.
+Definition cp_to_vec_from v (w : option (tensor F)) (fs : list (tensor F)) : res (tensor F) :=
+  rbind (cp_to_tensor_from v w fs None) tensor_to_vec.
+Definition cp_to_vec (w : option (tensor F)) (fs : list (tensor F)) : res (tensor F) := cp_to_vec_from (validate_cp w fs) w fs.
 
-(* cp_norm ** 2: sum over (r, s) of  prod_k (A_k^T A_k)[r, s] * w_r * w_s *)
+(* cp_norm ** 2: sum over (r, s) of  prod_k (A_k^T A_k)[r, s] * w_r * w_s  (factors viewed as matrices first) *)
 Definition gram (f : tensor F) (r s : nat) : F := fsumn (nrows f) (fun i => get2 f i r *f get2 f i s).
 Definition wv (w : option (tensor F)) (r : nat) : F := match w with None => one | Some wt => get1 wt r end.
-Definition cp_normsq (w : option (tensor F)) (fs : list (tensor F)) : res F :=
-  rbind (validate_cp w fs) (fun _ =>
+Definition cp_normsq_from (v : res (list nat * nat)) (w : option (tensor F)) (fs : list (tensor F)) : res F :=
+  rbind v (fun _ =>
+    let fs := as_matrices fs in
+    if negb (ndim (hd (mk [] []) fs) =? 2) then Err else
     let R := ncols (hd (mk [] []) fs) in
     Ok (fsumn R (fun r => fsumn R (fun s =>
           fold_left (fun acc f => acc *f gram f r s) fs one *f (wv w r *f wv w s))))).
+Definition cp_normsq (w : option (tensor F)) (fs : list (tensor F)) : res F := cp_normsq_from (validate_cp w fs) w fs.
 
 (* ------------------------------------------------------------------ Tucker *)
 Fixpoint tucker_dims (k : nat) (cs : list nat) (fs : list (tensor F)) : res (list nat * list nat) :=
@@ -364,19 +386,23 @@ Definition p2_slice_raw (w : option (tensor F)) (A B C : tensor F) (ps : list (t
     let a' := match w with None => a | Some wt => mul_vec a wt end in
     rbind (mdot (nth i ps (mk [] [])) B) (fun Bi => mdot (scale_cols Bi a') (mT C))
   else Err.
-Definition parafac2_to_slice w (fs ps : list (tensor F)) (i : nat) : res (tensor F) :=
-  rbind (validate_parafac2 w fs ps) (fun _ =>
+Definition parafac2_to_slice_from (v : res (list (list nat) * nat)) w (fs ps : list (tensor F)) (i : nat) : res (tensor F) :=
+  rbind v (fun _ =>
     match fs with [A; B; C] => p2_slice_raw w A B C ps i | _ => Err end).
+Definition parafac2_to_slice w (fs ps : list (tensor F)) (i : nat) : res (tensor F) :=
+  parafac2_to_slice_from (validate_parafac2 w fs ps) w fs ps i.
 Fixpoint collect {X} (l : list (res X)) : res (list X) :=
   match l with [] => Ok [] | x :: r => rbind x (fun a => rbind (collect r) (fun t => Ok (a :: t))) end.
 (* parafac2_to_slices: the weights are absorbed into A first, then every slice is generated without weights *)
-Definition parafac2_to_slices w (fs ps : list (tensor F)) : res (list (tensor F)) :=
-  rbind (validate_parafac2 w fs ps) (fun _ =>
+Definition parafac2_to_slices_from (v : res (list (list nat) * nat)) w (fs ps : list (tensor F)) : res (list (tensor F)) :=
+  rbind v (fun _ =>
     match fs with
     | [A; B; C] => let A' := opt_scale w A in
                    collect (map (fun i => p2_slice_raw None A' B C ps i) (seq 0 (nrows A)))
     | _ => Err
     end).
+Definition parafac2_to_slices w (fs ps : list (tensor F)) : res (list (tensor F)) :=
+  parafac2_to_slices_from (validate_parafac2 w fs ps) w fs ps.
 (* tensor = zeros((I, max J_i, K)); for i: tensor[i, :J_i] = slice_i *)
 Definition slice_update (T : tensor F) (i len : nat) (Sl : tensor F) : tensor F :=
   tabulate (shape T) (fun idx => if (ix 0 idx =? i) && (ix 1 idx <? len) then get2 Sl (ix 1 idx) (ix 2 idx) else get zero T idx).
@@ -385,8 +411,8 @@ Fixpoint pad_slices (T : tensor F) (i : nat) (slices : list (tensor F)) (lens : 
   | Sl :: sr, l :: lr => pad_slices (slice_update T i l Sl) (S i) sr lr
   | _, _ => T
   end.
-Definition parafac2_to_tensor w (fs ps : list (tensor F)) : res (tensor F) :=
-  rbind (parafac2_to_slices w fs ps) (fun slices =>
+Definition parafac2_to_tensor_from v w (fs ps : list (tensor F)) : res (tensor F) :=
+  rbind (parafac2_to_slices_from v w fs ps) (fun slices =>
     match fs with
     | [A; B; C] =>
       let lens := map nrows ps in
@@ -394,7 +420,55 @@ Definition parafac2_to_tensor w (fs ps : list (tensor F)) : res (tensor F) :=
       Ok (pad_slices zeros 0 slices lens)
     | _ => Err
     end).
+Definition parafac2_to_tensor w (fs ps : list (tensor F)) : res (tensor F) :=
+  parafac2_to_tensor_from (validate_parafac2 w fs ps) w fs ps.
 Definition parafac2_to_unfolded w fs ps (mode : nat) := rbind (parafac2_to_tensor w fs ps) (fun t => unfold zero t mode).
 Definition parafac2_to_vec w fs ps := rbind (parafac2_to_tensor w fs ps) tensor_to_vec.
+
+(* ------------------------------------------------------------------ wrapper objects *)
+(* CPTensor / TuckerTensor / TTTensor / TRTensor / TTMatrix / Parafac2Tensor: the constructor validates once and CACHES
+   (shape, rank); _validate_*(obj) returns the cache; unpacking / iterating the object yields the stored contents;
+   __setitem__ replaces stored contents and does not touch the cache. *)
+Definition ones_vec (n : nat) : tensor F := tabulate [n] (fun _ => one).
+
+Record cp_obj := mk_cpo { cpo_shape : list nat; cpo_rank : nat; cpo_weights : option (tensor F); cpo_factors : list (tensor F) }.
+(* CPTensor((weights, factors)): weights=None is replaced by ones(rank) *)
+Definition cp_new (w : option (tensor F)) (fs : list (tensor F)) : res cp_obj :=
+  rbind (validate_cp w fs) (fun sr =>
+    Ok (mk_cpo (fst sr) (snd sr) (Some (match w with None => ones_vec (snd sr) | Some x => x end)) fs)).
+(* obj[0] = weights ; obj[1] = factors *)
+Definition cp_set_weights (o : cp_obj) (w : option (tensor F)) := mk_cpo (cpo_shape o) (cpo_rank o) w (cpo_factors o).
+Definition cp_set_factors (o : cp_obj) (fs : list (tensor F)) := mk_cpo (cpo_shape o) (cpo_rank o) (cpo_weights o) fs.
+Definition cpo_validate (o : cp_obj) : res (list nat * nat) := Ok (cpo_shape o, cpo_rank o).
+Definition cpo_to_tensor (o : cp_obj) mask := cp_to_tensor_from (cpo_validate o) (cpo_weights o) (cpo_factors o) mask.
+Definition cpo_to_unfolded (o : cp_obj) mode := cp_to_unfolded_from (cpo_validate o) (cpo_weights o) (cpo_factors o) mode.
+Definition cpo_to_vec (o : cp_obj) := cp_to_vec_from (cpo_validate o) (cpo_weights o) (cpo_factors o).
+Definition cpo_normsq (o : cp_obj) := cp_normsq_from (cpo_validate o) (cpo_weights o) (cpo_factors o).
+
+(* TuckerTensor: obj[0] = core, obj[1] = factors; the reconstruction functions unpack the object and never look at the cache *)
+Record tk_obj := mk_tko { tko_shape : list nat; tko_rank : list nat; tko_core : tensor F; tko_factors : list (tensor F) }.
+Definition tucker_new (core : tensor F) (fs : list (tensor F)) : res tk_obj :=
+  rbind (validate_tucker core fs) (fun sr => Ok (mk_tko (fst sr) (snd sr) core fs)).
+Definition tk_set_core (o : tk_obj) c := mk_tko (tko_shape o) (tko_rank o) c (tko_factors o).
+Definition tk_set_factors (o : tk_obj) fs := mk_tko (tko_shape o) (tko_rank o) (tko_core o) fs.
+Definition tko_to_tensor (o : tk_obj) skip tr := tucker_to_tensor (tko_core o) (tko_factors o) skip tr.
+
+(* TTTensor / TRTensor / TTMatrix: a list of cores; obj[k] = core replaces one core in the stored list *)
+Record ch_obj := mk_cho { cho_shape : list nat; cho_rank : list nat; cho_cores : list (tensor F) }.
+Definition ch_new (validate : list (tensor F) -> res (list nat * list nat)) (cs : list (tensor F)) : res ch_obj :=
+  rbind (validate cs) (fun sr => Ok (mk_cho (fst sr) (snd sr) cs)).
+Definition ch_set (o : ch_obj) (k : nat) (c : tensor F) : res ch_obj :=
+  if k <? length (cho_cores o) then Ok (mk_cho (cho_shape o) (cho_rank o) (set_nth k c (cho_cores o))) else Err.
+
+(* Parafac2Tensor: weights=None replaced by ones(rank); no __setitem__ *)
+Record p2_obj := mk_p2o { p2o_shape : list (list nat); p2o_rank : nat; p2o_weights : option (tensor F);
+                          p2o_factors : list (tensor F); p2o_projections : list (tensor F) }.
+Definition p2_new (w : option (tensor F)) (fs ps : list (tensor F)) : res p2_obj :=
+  rbind (validate_parafac2 w fs ps) (fun sr =>
+    Ok (mk_p2o (fst sr) (snd sr) (Some (match w with None => ones_vec (snd sr) | Some x => x end)) fs ps)).
+Definition p2o_validate (o : p2_obj) : res (list (list nat) * nat) := Ok (p2o_shape o, p2o_rank o).
+Definition p2o_to_slice (o : p2_obj) i := parafac2_to_slice_from (p2o_validate o) (p2o_weights o) (p2o_factors o) (p2o_projections o) i.
+Definition p2o_to_slices (o : p2_obj) := parafac2_to_slices_from (p2o_validate o) (p2o_weights o) (p2o_factors o) (p2o_projections o).
+Definition p2o_to_tensor (o : p2_obj) := parafac2_to_tensor_from (p2o_validate o) (p2o_weights o) (p2o_factors o) (p2o_projections o).
 
 End M.
